@@ -19,7 +19,7 @@ Proof. exact passes_bounded. Qed.
 (** the full statement (every returned transaction is a fixed point) is false of the loop:
     a size function that oscillates with the fee makes it stop on the round cap (finding F05-1) *)
 Theorem C05_round_cap_refuted :
-  exists r st e, resolve 1 0 0 unit osc_build 3 tt = Ok (Some r, st, e) /\ e = false /\ c_body_fee r <> c_fee r.
+  exists r st e, resolve 1 0 0 unit osc_build tt 3 tt = Ok (Some r, st, e) /\ e = false /\ c_body_fee r <> c_fee r.
 Proof. exact resolve_fixed_point_refuted. Qed.
 
 Print Assumptions C05_fee_formula.
